@@ -366,6 +366,7 @@ class RewritingContext:
         context: InsertionContext,
         *,
         implicit_cfi_procedure: bool = True,
+        modify_cache: Optional[ModifyCache] = None,
     ) -> Optional[Assembler.Result]:
         """
         Invokes a patch at a concrete location and assembles it.
@@ -377,6 +378,9 @@ class RewritingContext:
         :param context: The InsertionContext to pass to the patch.
         :param implicit_cfi_procedure: Should the patch implicitly be in a CFI
                                        procedure?
+        :param modify_cache: The modify cache in use, if any. Symbols that the
+                             assembler looks up are given their up-to-date
+                             referent first.
         :returns: The result of assembling the patch.
         """
 
@@ -419,8 +423,24 @@ class RewritingContext:
         elif isinstance(actual_block, gtirb.DataBlock):
             is_trivially_unreachable = True
 
+        target = Assembler.ModuleTarget(self._module)
+        if modify_cache is not None:
+            # The reference cache may hold the referents of symbols whose
+            # blocks were removed or joined earlier in this rewrite; the
+            # assembler reads Symbol.referent directly, so make the referent
+            # of every symbol it looks up direct first.
+            reference_cache = modify_cache.reference_cache
+            module_lookup = target.symbol_lookup
+
+            def symbol_lookup(name: str) -> Iterator[gtirb.Symbol]:
+                for sym in module_lookup(name):
+                    reference_cache.get_referent(sym)
+                    yield sym
+
+            target.symbol_lookup = symbol_lookup
+
         assembler = Assembler(
-            self._module,
+            target,
             temp_symbol_suffix=f"_{self._patch_id}",
             trivially_unreachable=is_trivially_unreachable,
             implicit_cfi_procedure=implicit_cfi_procedure,
@@ -662,6 +682,7 @@ class RewritingContext:
                         actual_block,
                         actual_offset,
                         context,
+                        modify_cache=modify_cache,
                     )
                 else:
                     assembler_result = self._synthesize_result(
@@ -802,6 +823,7 @@ class RewritingContext:
             0,
             context,
             implicit_cfi_procedure=False,
+            modify_cache=modify_cache,
         )
         if assembler_result is None:
             return
